@@ -192,7 +192,11 @@ Print Assumptions C18_header_roundtrip.
 (* the saved file, GIVEN the two oracles as premises: the XML layer returns the matrix of
    index maps it was given (Cifti2*._to_xml_element + Cifti2Parser/expat) and the NIfTI-2
    container returns shape, extension 32 and data (C01/C11).  Then loading what was saved
-   gives the same data, the same data shape, and axes equal to the ones written. *)
+   gives the same data, the same data shape, and axes equal to the ones written.  The XML
+   premise is what the correspondence streams E/F measure; it is known to fail for map names /
+   metadata / label names that are empty or have leading or trailing whitespace (S-C18c) and
+   for a LabelAxis row with an empty label table (S-C18d) - inputs kept out of the generators
+   and probed separately. *)
 Theorem C18_file_roundtrip : forall (X D F : Type)
     (to_xml : list (list Z * amap) -> X) (parse_xml : X -> res (list (list Z * amap)))
     (dshape : D -> list Z) (nifti_write : list Z -> X -> D -> F)
@@ -210,6 +214,19 @@ Proof.
                           to_xml parse_xml axis_len dshape nifti_write nifti_read).
 Qed.
 Print Assumptions C18_file_roundtrip.
+
+(* file histories: the NIfTI header of the image being saved may come from a loaded or an
+   already saved image (nifti_header=...) and then already holds CIFTI-2 XML of OTHER axes.
+   For EVERY prior extension list: after to_file_map there is exactly one CIFTI-2 extension,
+   it carries the XML of the image saved now, from_file_map finds it, other extensions are
+   kept in order.  (Hence after any sequence of saves the last XML wins.) *)
+Theorem C18_save_replaces_cifti_extension : forall exts xml,
+  first_cifti_ext (set_cifti_ext exts xml) = Some xml
+  /\ filter is_cifti_ext (set_cifti_ext exts xml) = [(32, xml)]
+  /\ filter (fun e => negb (is_cifti_ext e)) (set_cifti_ext exts xml)
+     = filter (fun e => negb (is_cifti_ext e)) exts.
+Proof. exact save_replaces_cifti_ext. Qed.
+Print Assumptions C18_save_replaces_cifti_extension.
 
 (* non-vacuity: an interleaved axis (cortex / thalamus / cortex / thalamus / cortex) is well
    formed; its maps, the decoded axis and a fancy index compute to the expected values *)
